@@ -207,6 +207,9 @@ def attribute(E, e):
     d = dotted(e)
     if d is not None and d in E.c.externals and E.c.externals[d].get("ghost_value"):
         return st.vars[E.c.externals[d]["ghost_value"]]  # a property of an un-modelled object, represented by a ghost parameter
+    if d is not None and d in E.c.externals and E.c.externals[d].get("attr"):
+        # an (effectful) property of an un-modelled object: evaluated like a call without arguments
+        return external_call(E, d, E.c.externals[d], e, None, [], {})
     if d is not None and d in E.c.externals and _root(e).id not in st.vars:
         return V("fn", None, items=("external", d, None, None, None), py=d)
     if d is not None and d in E.c.d.get("consts", {}) and _root(e).id not in st.vars:
@@ -995,13 +998,29 @@ def listcomp(E, e):
                 del st.vars[k]
             else:
                 st.vars[k] = saved[k]
-    if conds:
-        raise OutOfSubset("filtered comprehension over a symbolic-length list: " + U(e)[:60])
     if body.z is None:
         raise OutOfSubset("comprehension element is not a scalar/reference: " + U(e)[:60])
     n = z3.If(hi >= lo, hi - lo, 0)
     if st.spec:
         raise OutOfSubset("symbolic comprehension in spec")
+    if conds:
+        # [f(x) for x in xs if P(x)]: a fresh list characterised by soundness, completeness and its first element (order-preserving filter)
+        cond = z3.And(*conds)
+        r = E.alloc_list(body.ty)
+        s_ = sort_of(body.ty)
+        arr = fresh("lcf", z3.ArraySort(I, s_))
+        nr = fresh("lcf_len")
+        k = z3.Int(f"k!lc{next(_cnt)}")
+        j2 = z3.Int(f"j!lc{next(_cnt)}")
+        inr = z3.And(0 <= j, j < n)
+        body2, cond2 = z3.substitute(body.z, (j, j2)), z3.substitute(cond, (j, j2))
+        st.pc.append(z3.And(nr >= 0, nr <= n))
+        st.pc.append(z3.ForAll([k], z3.Implies(z3.And(0 <= k, k < nr), z3.Exists([j], z3.And(inr, cond, arr[k] == body.z)))))
+        st.pc.append(z3.ForAll([j], z3.Implies(z3.And(inr, cond), z3.Exists([k], z3.And(0 <= k, k < nr, arr[k] == body.z)))))
+        st.pc.append(z3.Implies(nr > 0, z3.Exists([j], z3.And(inr, cond, arr[0] == body.z, z3.ForAll([j2], z3.Implies(z3.And(0 <= j2, j2 < j), z3.Not(cond2)))))))
+        st.heap.store(E.el_name(body.ty), z3.ArraySort(I, s_), r.z, arr)
+        st.heap.store("len", I, r.z, nr)
+        return r
     r = E.alloc_list(body.ty)
     s = sort_of(body.ty)
     arr = fresh("lc", z3.ArraySort(I, s))
@@ -1331,8 +1350,10 @@ def call_by_contract(E, c, fn, mod, selfv, args, kwargs, node):
             nentry_ = st.nref
             st.nref = fresh("nref")
             st.pc.append(st.nref >= pre.nref)
-            st.heap.havoc(nentry_, mods, st.nref)
+            only_ = [(E.ev_spec_value(objexpr).z, list(flds)) for objexpr, flds in c.d.get("only_fields", {}).items()]
+            st.heap.havoc(nentry_, mods, st.nref, only_)  # field-granular frame of the callee (verified at the callee's exits)
             E.drain()
+            E.trace_prefix_preserved(pre.heap)
         for gname in c.d.get("ghost_modifies", []):
             gty = c.d.get("ghost_state", {}).get(gname) or E.c.d.get("ghost_state", {}).get(gname)
             env[gname] = E.symbolic(gname.strip("$"), parse_type(gty))
@@ -1465,7 +1486,12 @@ def external_call(E, name, ext, e, recv=None, args=None, kwargs=None):
     if ext.get("uf"):
         zs = []
         for a in args:
-            zs.extend(flatten_z(E, a))
+            if a.ty in ("int", "real", "bool"):
+                if a.none is not None and not z3.is_false(z3.simplify(a.none)):
+                    raise OutOfSubset(f"optional scalar passed to the uninterpreted external {name}")
+                zs.append(a.z)  # plain arity: matches an `opaque` declaration of the same name
+            else:
+                zs.extend(flatten_z(E, a))
         rty = parse_type(oc.get("returns", "any"))
         f = z3.Function(ext["uf"], *([z.sort() for z in zs] + [sort_of(rty)]))
         res = V(strip_opt(rty), f(*zs))
@@ -1528,6 +1554,8 @@ def py_builtin(E, name, e):
     if name == "len":
         v = args[0]
         t = E.full_ty(v)
+        if t == "none" and st.spec:
+            return vint(0)  # spec: len of a value that is None on this path (guard it with isnone)
         if isinstance(t, tuple) and t[0] == "tuple":
             return vint(len(t) - 1)
         if isinstance(t, tuple) and t[0] in ("list", "dict", "set"):
@@ -2180,4 +2208,7 @@ def opaque_call(E, name, args):
             st.vars = saved
     f = z3.Function(name, *([sort_of(t) for t in atys] + [sort_of(rty)]))
     zs = [E.coerce(a, t).z for a, t in zip(args, atys)]
-    return V(strip_opt(rty), f(*zs))
+    res = V(strip_opt(rty), f(*zs))
+    if is_ref(rty):
+        E.assume_wf(res, is_opt(rty))  # an uninterpreted function returning a reference returns an allocated object of that kind
+    return res
